@@ -157,12 +157,16 @@ def task_setup_and_add(pr, repo):
     def thunk(ex, ctx):
         seen = []
         ex.contracts[CC + '.init_group'] = lambda ex, ctx_, fi, a, k, so: seen.append(a[0])
-        conf = record('conf', repo.cls(CC), groups=[])
-        g = record('g', repo.cls('propka.group.Group'))
+        opts = record('options', None, chains=None, titrate_only=None)
+        conf = record('conf', repo.cls(CC), groups=[], molecular_container=record('mol', None, options=opts), parameters=record('P', None))
+        # an incomplete residue: the defining atom is there, the atoms it interacts through are not
+        g = record('g', repo.cls('propka.group.Group'), interaction_atoms_for_acids=[], interaction_atoms_for_bases=[],
+                   atom=record('at', repo.cls('propka.atom.Atom'), chain_id='A', res_num=5, icode=' ', type='atom'))
         ex.call_function(repo.func(CC + '.setup_and_add_group'), [g], self_obj=conf)
         ex.call_function(repo.func(CC + '.setup_and_add_group'), [None], self_obj=conf)
-        ctx.oblige('IG: every group found is initialised once and kept in the conformation whether listed or not '
-                   '(unlisted residues still act as interaction partners and desolvating environment)',
+        ctx.oblige('IG: every group found is initialised once and kept in the conformation whether listed or not, complete or not '
+                   '(unlisted residues still act as interaction partners and desolvating environment; a site whose defining atom is '
+                   'present is reported)',
                    seen == [g] and conf.attrs['groups'] == [g])
     pr.explore(ex, thunk, 'setup_and_add_group')
 
